@@ -25,7 +25,8 @@ RULE = ('metamorphic + stream-conservation monitor: base files with long '
         'padding / block size) by construction.')
 FLOOR = {'quick': 8000, 'thorough': 200000}
 REQUIRED_REACH = ['reader.py:']
-REQUIRED_COUNTERS = ['paddings_checked',
+REQUIRED_COUNTERS = ['paddings_checked', 'stream_offsets_checked',
+                     'buffered_stream_reads',
                      'position_at_yield_checked', 'real_file_reads']
 ASSUMPTIONS = [
     'the block size knob is discovered by reflection (an int default / class '
@@ -108,12 +109,17 @@ def pad_first_header(data, n):
     return h2 + (b'\r' if cr else b'') + data[eol:], len(h2) - len(h)
 
 
-def read_with_positions(data, layout, obs, stream=None):
+def read_with_positions(data, layout, obs, stream=None, offset=0):
     """Read, checking the stream position at each yield (when a layout is
     given) and conservation at the end. Returns (records, exc, fails)."""
     from pydiffx.reader import DiffXReader
     if stream is None:
-        stream = MonitoredStream(data)
+        if offset:
+            stream = MonitoredStream(b'\x02' * offset + data)
+            stream._s.seek(offset)
+            stream.start = offset
+        else:
+            stream = MonitoredStream(data)
     recs = []
     exc = None
     fails = []
@@ -126,7 +132,7 @@ def read_with_positions(data, layout, obs, stream=None):
                 if 'coff' in s:
                     end = s['coff'] + s['clen']
                 obs.count('position_at_yield_checked')
-                if stream.tell() != end:
+                if stream.tell() != end + offset:
                     fails.append('position_at_yield')
     except Exception as e:
         exc = e
@@ -234,6 +240,31 @@ def check_file(data, layout, obs, rng, pads, sizes, real_file=False):
         for f in fails:
             obs.violation('stream:%s:block_size' % f, case)
             break
+    # (2b) the document somewhere inside a longer stream
+    for off in (1, 2, 95, 96, 97, 191, 4099, 8192):
+        recs, exc, fails = read_with_positions(data, layout, obs, offset=off)
+        n += 1
+        obs.count('stream_offsets_checked')
+        case = {'file': data, 'stream_offset': off}
+        if exc is not None or common.diff_records(base, recs):
+            obs.violation('stream_offset_changes_records', case,
+                          repr(exc)[:200])
+            break
+        for f in fails:
+            obs.violation('stream:%s:offset' % f, case)
+            break
+    # (2c) buffered streams with small buffers (peek(), short internal reads)
+    import io as _io
+    for bs in (16, 50, 96, 97, 128, 1000):
+        ms = MonitoredStream(raw=_io.BufferedReader(_io.BytesIO(data),
+                                                    buffer_size=bs))
+        recs, exc, _f = read_with_positions(data, None, obs, ms)
+        n += 1
+        obs.count('buffered_stream_reads')
+        if exc is not None or common.diff_records(base, recs):
+            obs.violation('buffered_stream_differs',
+                          {'file': data, 'buffer': bs}, repr(exc)[:200])
+            break
     # (3) a real buffered file
     if real_file:
         d = os.path.join(env.OUT, 'tmp')
@@ -259,9 +290,102 @@ def check_file(data, layout, obs, rng, pads, sizes, real_file=False):
         obs.distinct_by_construction(n)
 
 
+def boundary_files():
+    """Files whose later headers straddle the internal buffer boundaries of
+    buffered streams (4096 / 8192 / 16384) and files with one header longer
+    than 8 KiB / 64 KiB."""
+    out = []
+    for B in (4096, 8192, 16384):
+        for k in range(0, 40, 3):
+            filler = B - k - 200
+            doc = {'encoding': 'utf-8', 'changes': [{'encoding': None, 'files': [
+                {'encoding': None,
+                 'meta': {'obj': {'path': 'a'}, 'encoding': None},
+                 'diff': {'data': (b'+' + b'f' * 62 + b'\n') * (filler // 64),
+                          'encoding': None, 'line_endings': 'unix',
+                          'type': None}},
+                {'encoding': 'latin-1',
+                 'meta': {'obj': {'path': 'b' * (k + 1)}, 'encoding': None},
+                 'diff': {'data': b'-x\n', 'encoding': None,
+                          'line_endings': 'unix', 'type': None}},
+                {'encoding': None,
+                 'meta': {'obj': {'path': 'c'}, 'encoding': None}}]}]}
+            out.append(serialize(doc))
+    for hl in (8000, 8190, 8200, 9000, 20000, 70000):
+        def extra(index, sid, pairs, hl=hl):
+            if index == 2:
+                return pairs + [('x-long', 'w' * hl)]
+            return pairs
+        doc = {'encoding': 'utf-8', 'changes': [{'encoding': None, 'files': [
+            {'encoding': None, 'meta': {'obj': {'p': 1}, 'encoding': None}},
+            {'encoding': None, 'meta': {'obj': {'p': 2}, 'encoding': None}}]}]}
+        out.append(serialize(doc, Style(extra=extra)))
+    return out
+
+
+def check_boundary_file(data, layout, obs, sizes):
+    import io
+    base, exc, fails = read_with_positions(data, layout, obs)
+    expected = expected_records(layout)
+    case0 = {'file': data}
+    if exc is not None or common.diff_records(expected, base):
+        obs.violation('boundary_file_misread:%s' % (
+            common.exc_mechanism(exc) if exc else 'records'), case0)
+        return
+    n = 0
+    # buffered streams of several buffer sizes (they offer peek())
+    for bs in (512, 4096, 8192, 16384):
+        ms = MonitoredStream(raw=io.BufferedReader(io.BytesIO(data),
+                                                   buffer_size=bs))
+        recs, exc, _ = read_with_positions(data, None, obs, ms)
+        n += 1
+        obs.count('buffered_stream_reads')
+        if exc is not None or common.diff_records(base, recs):
+            obs.violation('buffered_stream_differs', dict(case0, buffer=bs),
+                          repr(exc)[:200])
+            return
+    d = os.path.join(env.OUT, 'tmp')
+    os.makedirs(d, exist_ok=True)
+    path = os.path.join(d, 'c17b-%d.diffx' % os.getpid())
+    with open(path, 'wb') as fh:
+        fh.write(data)
+    for buffering in (-1, 4096, 0):
+        with open(path, 'rb', buffering=buffering) as fh:
+            recs, exc, _ = read_with_positions(data, None, obs,
+                                               MonitoredStream(raw=fh))
+        n += 1
+        obs.count('real_file_reads')
+        if exc is not None or common.diff_records(base, recs):
+            obs.violation('real_file_differs', dict(case0,
+                                                    buffering=buffering))
+            break
+    os.unlink(path)
+    for size in sizes:
+        restore = set_block(size)
+        if restore is None:
+            break
+        try:
+            recs, exc, fails = read_with_positions(data, layout, obs)
+        finally:
+            restore()
+        n += 1
+        obs.count('block_sizes_checked')
+        if exc is not None or common.diff_records(base, recs):
+            obs.violation('block_size_changes_outcome:%s' % (
+                common.exc_mechanism(exc) if exc else 'records'),
+                dict(case0, block_size=size))
+            break
+    obs.case(None, nontrivial=False, n=n)
+    obs.distinct_by_construction(n)
+
+
 def run(ctx):
     obs = ctx.obs
     rng = ctx.rng
+    for i, (data, layout) in enumerate(boundary_files()):
+        if ctx.mine(i):
+            check_boundary_file(data, layout, obs,
+                                (1, 7, 64, 96, 100, 4096, 8192, 10 ** 6))
     nfiles = ctx.share(ctx.pick(64, 3000))
     pads = list(range(0, 2 * BLOCK + 1))
     sizes = list(range(1, 2 * BLOCK + 1)) + [1000, 10 ** 6]
